@@ -42,6 +42,7 @@ type CSym struct {
 	Cred      string    `json:"cred,omitempty"` // credential token; "-" = no authentication member
 	WrongType bool      `json:"wrongType,omitempty"`
 	From      *NodeSpec `json:"from,omitempty"`
+	To        *NodeSpec `json:"to,omitempty"`        // a destination on a session envelope (anything but the server's full node is just what the peer wrote)
 	PP        *NodeSpec `json:"pp,omitempty"`        // a delegation node on a session envelope: it has no say in who is being authenticated
 	DoTLS     bool      `json:"doTls,omitempty"`     // perform the TLS handshake if the server confirms tls
 	ForceAuth bool      `json:"forceAuth,omitempty"` // carry scheme and authentication data although the state is not authenticating
@@ -254,6 +255,9 @@ func symToEnv(s *CSym, sid string) M {
 	}
 	if s.From != nil {
 		m["from"] = NodeText(s.From.Node())
+	}
+	if s.To != nil {
+		m["to"] = NodeText(s.To.Node())
 	}
 	if s.PP != nil {
 		m["pp"] = NodeText(s.PP.Node())
